@@ -33,7 +33,16 @@ mod verif_kani_stopdec {
             self.accepting
         }
     }
+    struct ShimTrie {
+        eos: TokenId,
+    }
+    impl ShimTrie {
+        fn eos_token(&self) -> TokenId {
+            self.eos
+        }
+    }
     struct ShimTP {
+        trie: ShimTrie,
         parser: ShimParser,
         ff_bytes: bool,
         is_accepting_cache: Option<bool>,
@@ -45,6 +54,9 @@ mod verif_kani_stopdec {
     impl ShimTP {
         fn has_ff_bytes(&self) -> bool {
             self.ff_bytes
+        }
+        fn tok_trie(&self) -> &ShimTrie {
+            &self.trie
         }
         fn stop(&mut self, _warn: &str, reason: StopReason) -> ShimError {
             self.stop_reason = reason;
@@ -60,8 +72,9 @@ mod verif_kani_stopdec {
         }
     }
 
+    /// two end-of-sequence tokens (7 = primary, 9 = extra, as set up by with_eos_tokens); 3 = an ordinary token
     fn mk(last_is_eos: bool, has_last: bool) -> ShimTP {
-        let eos: TokenId = 7;
+        let eos: TokenId = if kani::any() { 7 } else { 9 };
         let mut llm_tokens = Vec::with_capacity(1);
         if has_last {
             llm_tokens.push(if last_is_eos { eos } else { 3 });
@@ -72,11 +85,12 @@ mod verif_kani_stopdec {
         // is `!has_ff_bytes() && parser.is_accepting()`; the cache, when filled, was computed by that formula)
         let cache: Option<bool> = if kani::any() { Some(!ff_bytes && accepting) } else { None };
         ShimTP {
+            trie: ShimTrie { eos: 7 },
             parser: ShimParser { accepting, can_advance: kani::any(), pending_lexeme: kani::any() },
             ff_bytes,
             is_accepting_cache: cache,
             llm_tokens,
-            eos_tokens: vec![eos],
+            eos_tokens: vec![7, 9],
             stop_reason: StopReason::NotStopped,
             stops: 0,
         }
@@ -102,7 +116,8 @@ mod verif_kani_stopdec {
                 assert!(tp.stopped() == want);
                 if want {
                     assert!(tp.stops == 1);
-                    assert!(tp.stop_reason == if pending_eos { StopReason::EndOfSentence } else { StopReason::NoExtension });
+                    let want_reason = if pending_eos { StopReason::EndOfSentence } else { StopReason::NoExtension };
+                    assert!(tp.stop_reason == want_reason);
                 } else {
                     assert!(tp.stops == 0 && tp.stop_reason == StopReason::NotStopped);
                 }
@@ -119,9 +134,9 @@ mod verif_kani_stopdec {
         let complete = !tp.ff_bytes && tp.parser.accepting;
         let base = SimpleVob::alloc_with_capacity(20, 21);
         let out = tp.eos_clause(base);
-        assert!(out.is_allowed(7) == complete);
+        assert!(out.is_allowed(7) == complete && out.is_allowed(9) == complete); // every EOS id, not only the primary one
         let t: u32 = kani::any();
-        kani::assume(t < 20 && t != 7);
+        kani::assume(t < 20 && t != 7 && t != 9);
         assert!(!out.is_allowed(t));
     }
 
